@@ -118,5 +118,100 @@ fn main() {
         canon.sort();
         ctx.case(req, format!("w={}", canon.join(";")));
     }
+    runtime_half(&u, &mut ctx, quick);
     ctx.finish();
+}
+
+/// The run-time half of C12: an accepted match selects, for every value of the scrutinee type, the
+/// arm the matrix model's semantics selects (first arm whose pattern matches).  Arm lists with two or
+/// more SIBLING or-patterns (tuple / struct components, fields of a variant) so that a value may need a
+/// right-then-left combination of alternatives, next to ordinary generated arms.
+fn runtime_half(u: &Universe, ctx: &mut Ctx, quick: bool) {
+    let mut tys: Vec<Ty> = scrutinee_types().into_iter().chain(scrutinee_types_d46())
+        .filter(|t| sibling_or_pat(u, t, &mut Rng::new(1)).is_some()).collect();
+    tys.push(Ty::Tuple(vec![Ty::Enum(0), Ty::Bool]));
+    tys.push(Ty::Tuple(vec![Ty::Bool, Ty::Bool, Ty::Bool]));
+    let n_cases = if quick { 150 } else { 4000 };
+    let max_vals = if quick { 12 } else { 64 };
+    struct RJob { req: String, src: String, spec: String, what: String }
+    let mut jobs: Vec<RJob> = vec![];
+    let mut made = 0;
+    let mut tries = 0;
+    while made < n_cases && tries < n_cases * 20 {
+        tries += 1;
+        let ty = ctx.rng.pick(&tys).clone();
+        let values = u.values(&ty, 3);
+        // one or two arms with sibling or-patterns, some ordinary arms before/after them
+        let mut arms: Vec<Pat> = vec![];
+        let mut none = None;
+        if ctx.rng.chance(1, 2) {
+            arms.push(u.gen_pat(&ty, 2, &mut ctx.rng, &mut none, false));
+        }
+        for _ in 0..1 + ctx.rng.below(2) {
+            if let Some(p) = sibling_or_pat(u, &ty, &mut ctx.rng) {
+                arms.push(p);
+            }
+        }
+        if ctx.rng.chance(1, 3) {
+            arms.push(u.gen_pat(&ty, 2, &mut ctx.rng, &mut none, false));
+        }
+        // acceptable to the checker: no unreachable arm, exhaustive (closed with a wildcard if needed)
+        let mut reached = vec![false; arms.len()];
+        let mut open_ = false;
+        for x in &values {
+            match first_match(&arms, x) {
+                Some(k) => reached[k] = true,
+                None => open_ = true,
+            }
+        }
+        let mut k = 0;
+        arms.retain(|_| { k += 1; reached[k - 1] });
+        if open_ {
+            arms.push(Pat::Wild);
+        }
+        if !arms.iter().any(|p| or_chains(p) >= 2) {
+            continue;
+        }
+        made += 1;
+        ctx.count("runtime:arm-lists");
+        // every value when the type is small, otherwise the values that need a mixed combination first
+        let mut chosen: Vec<&Val> = values.iter().collect();
+        if chosen.len() > max_vals {
+            let mut keyed: Vec<(bool, u64, &Val)> = chosen
+                .into_iter()
+                .map(|x| (first_match(&arms, x).map(|k| or_chains(&arms[k]) < 2).unwrap_or(true), ctx.rng.below(1000), x))
+                .collect();
+            keyed.sort_by_key(|t| (t.0, t.1));
+            keyed.truncate(max_vals);
+            chosen = keyed.into_iter().map(|t| t.2).collect();
+        }
+        for x in chosen {
+            let prog = match_program_at(u, &ty, x, &arms, 0);
+            let arm = first_match(&arms, x);
+            jobs.push(RJob {
+                req: format!("pc first {} {} {} {} {}", u.env_req(), u.ty_req(&ty), arms.len(),
+                    arms.iter().map(|p| u.pat_req(p)).collect::<Vec<_>>().join(" "), val_req(x)),
+                src: prog.src,
+                spec: match arm { Some(k) => format!("arm={k}"), None => "arm=none".into() },
+                what: format!("match {} on {} with arms [{}]", u.val_src(x, &ty), u.ty_src(&ty),
+                    arms.iter().map(|p| u.pat_src(p)).collect::<Vec<_>>().join(" ; ")),
+            });
+        }
+    }
+    let results = par_map(&jobs, |j| run_program(&j.src));
+    for (j, r) in jobs.iter().zip(results) {
+        ctx.count("runtime:values-run");
+        let imp = match &r.outcome {
+            Outcome::Done => format!("arm={}", r.out.trim()),
+            Outcome::Rejected(e) => format!("rejected {}", e.lines().nth(1).unwrap_or("").trim()),
+            o => format!("{} {}", o.tag(), r.err_text.lines().next().unwrap_or("")),
+        };
+        if imp != j.spec {
+            ctx.spec_fail(format!(
+                "{}: the checker accepts the match, at run time the implementation gives `{imp}`, the first matching arm is `{}`",
+                j.what, j.spec
+            ));
+        }
+        ctx.case(j.req.clone(), imp);
+    }
 }
